@@ -31,7 +31,14 @@ RULE = (
     "for buffer sizes {1, 7, L, len+1}); F: Request.form and parse_form_data for max_form_memory_size x "
     "max_form_parts x max_content_length in {None, small, exact, large} x CONTENT_LENGTH present/absent x "
     "wsgi.input_terminated x underlying stream with/without readinto, default answers plus every single short "
-    "read (E4, deviation bound 1). non-trivial = distinct (body, configuration) in which at least one limit is "
+    "read (E4, deviation bound 1). additionally: bodies with a FALSE delimiter followed by a long run, a long run after the headers and a long "
+    "epilogue under max_form_memory_size 64/96 (every decoder state after the header block), empty form, charset "
+    "field, part without Content-Disposition; at parser and form level the real decoder is observed "
+    "(largest buffer after a receive_data); at form level also Request with cached data, limits as instance "
+    "attributes, get_data(parse_form_data=True), FormDataParser(silent=False), FormDataParser.parse directly, "
+    "content-type parameter spellings, content that is not a form, multipart without usable boundary, and a "
+    "declared length that lies below max_content_length on a longer terminated stream. "
+    "non-trivial = distinct (body, configuration) in which at least one limit is "
     "set and the body is within a factor 3 of it."
 )
 ASSUMPTIONS = [
@@ -44,7 +51,7 @@ ASSUMPTIONS = [
 ]
 
 from werkzeug.exceptions import RequestEntityTooLarge  # noqa: E402
-from werkzeug.formparser import MultiPartParser, parse_form_data  # noqa: E402
+from werkzeug.formparser import FormDataParser, MultiPartParser, parse_form_data  # noqa: E402
 from werkzeug.sansio import multipart as mp  # noqa: E402
 from werkzeug.wrappers import Request  # noqa: E402
 
@@ -96,6 +103,23 @@ def multipart_bodies(L, tier):
     out.append((f"nodelim:lf*{2 * L}", None, b"\n" * (2 * L)))
     out.append((f"nodelim:headers-never-end*{2 * L}", None, b"\r\n--bnd\r\nX: " + b"h" * (2 * L)))
     out.extend(state_bodies())
+    if L == 16:
+        out.extend(misc_bodies())
+    return out
+
+
+def misc_bodies():
+    """Shapes the anchored code distinguishes that the limit-sized families do not produce."""
+    out = []
+    # an empty form: the first delimiter is already the closing one (PREAMBLE -> EPILOGUE)
+    out.append(("tiny*0:first-nl", (), c01.build_body((), B)))
+    out.append(("tiny*0:no-first-nl", (), c01.build_body((), B, first_nl=False)))
+    # a field that declares its charset (get_part_charset)
+    out.append(("tiny:charset", (("field", b"a", None, None, b"v\xe9", (("Content-Type", "text/plain; charset=iso-8859-1"),)),),
+                c01.build_body([fld(b"a", b"v\xe9")], B).replace(
+                    b'name="a"\r\n', b'name="a"\r\nContent-Type: text/plain; charset=iso-8859-1\r\n')))
+    # a part without Content-Disposition: not form data at all
+    out.append(("nodelim:part-without-disposition", None, b"\r\n--bnd\r\nX-Other: 1\r\n\r\nv\r\n--bnd--\r\n"))
     return out
 
 
@@ -142,7 +166,15 @@ def exp_parts(parts):
 
 
 def exp_form(parts):
-    return c01.expected_form([p[:5] for p in parts])
+    f, fl = c01.expected_form([p[:5] for p in parts])
+    f = list(f)
+    i = 0
+    for p in parts:
+        if p[0] == "field":
+            if len(p) > 5 and any("iso-8859-1" in v for _k, v in p[5]):
+                f[i] = (f[i][0], (p[4] or b"").decode("iso-8859-1"))
+            i += 1
+    return tuple(f), fl
 
 
 def nparts(parts):
@@ -411,13 +443,38 @@ def run_form(cfg, ch):
     SpyDecoder.peak = 0
     E4.arm(CPU_GUARD)
     try:
-        if via == "request":
+        if via in ("request", "request-cached"):
             class Rq(Request):
                 max_content_length = mcl
                 max_form_memory_size = mfms
                 max_form_parts = mparts
             rq = Rq(environ)
+            if via == "request-cached":
+                rq.get_data()                # the form is then parsed from the cached bytes
             form, files = rq.form, rq.files
+        elif via == "request-instance":
+            rq = Request(environ)            # limits set on the instance, not on a subclass
+            rq.max_content_length = mcl
+            rq.max_form_memory_size = mfms
+            rq.max_form_parts = mparts
+            form, files = rq.form, rq.files
+        elif via == "request-get-data-parse":
+            class Rq2(Request):
+                max_content_length = mcl
+                max_form_memory_size = mfms
+                max_form_parts = mparts
+            rq = Rq2(environ)
+            rq.get_data(parse_form_data=True)     # parses the form first (and must apply the same limits)
+            form, files = rq.form, rq.files
+        elif via == "parser-parse-direct":
+            # FormDataParser.parse on the bare stream, options omitted where the mimetype needs none
+            from werkzeug.http import parse_options_header as _poh
+            mt, opts = _poh(ctype)
+            _s, form, files = FormDataParser(max_form_memory_size=mfms, max_form_parts=mparts).parse(
+                inp, mt, len(body), opts or None)
+        elif via == "parser-not-silent":
+            _s, form, files = FormDataParser(max_form_memory_size=mfms, max_content_length=mcl,
+                                             max_form_parts=mparts, silent=False).parse_from_environ(environ)
         else:
             _s, form, files = parse_form_data(environ, max_form_memory_size=mfms, max_content_length=mcl,
                                               max_form_parts=mparts)
@@ -440,6 +497,12 @@ def judge_form(cfg, truth, got, inp):
     exp, np_, big = truth[:3]
     n = len(body)
     tag = "success" if isinstance(got, tuple) else got
+    special = exp if isinstance(exp, str) else None
+    if got == "EXC:ValueError" and special == "ill-formed" and via == "parser-not-silent":
+        got = ((), ())               # not silent: the parse error is raised instead of an empty result
+    if got == "EXC:ValueError" and via == "parser-not-silent" and not (terminated or declared_length(with_cl, n) is not None) \
+            and ctype.startswith("multipart/"):
+        got = ((), ())               # nothing usable to read: the empty stream is not a multipart body
     if got == "HANG" or (isinstance(got, str) and got.startswith("EXC")):
         return "form-parsing-raised:" + got
     declared = declared_length(with_cl, n)
@@ -454,7 +517,7 @@ def judge_form(cfg, truth, got, inp):
         return None
     if terminated and mcl is not None and inp.pos > mcl:
         return "more-than-max_content_length-taken-from-terminated-stream"
-    if lie:
+    if lie and special is None:
         # only generated for: terminated stream that delivers more than max_content_length although the
         # declared length is within it -> must be refused while reading
         return None if got == "RETL" else "terminated-stream-longer-than-max_content_length-not-refused:declared-length-lies"
@@ -471,6 +534,14 @@ def judge_form(cfg, truth, got, inp):
             return "RETL-without-any-limit"
         return None
     # parsing "succeeded"
+    if special == "none-parsed":
+        if got != ((), ()):
+            return "form-data-from-content-that-is-not-a-form"
+        if (inp.pos or inp.calls) and via not in ("request-cached", "request-get-data-parse"):
+            return "input-read-for-content-that-is-not-a-form"
+        return None
+    if special == "ill-formed":
+        return None if got == ((), ()) else "ill-formed-multipart-produced-form-data"
     if terminated and declared is None and mcl is not None and n > mcl:
         return "terminated-stream-longer-than-max_content_length-not-refused"
     if mfms is not None and big > mfms:
@@ -489,9 +560,12 @@ def tier_params(tier):
     level so that the ~45-byte header block fits under max_form_memory_size = L and the field-size checks are
     reached at all."""
     if tier == "thorough":
-        Ls = (16, 32, 48, 64)
+        Ls = (16, 32, 48, 64, 96)
         return dict(Ls=Ls, Ls_D=Ls, Ls_P=Ls, Ls_F=Ls,
-                    short_bs=lambda L, n: sorted({1, 2, 7, L - 1, L, L + 1, n, n + 1}), form_dev=1, all_lengths=True)
+                    # every single short read at EVERY buffer size for bodies up to 160 bytes, a stated set above
+                    short_bs=lambda L, n: (range(1, n + 2) if n <= 160 else
+                                           sorted({1, 2, 7, L - 1, L, L + 1, n, n + 1})),
+                    form_dev=1, all_lengths=True)
     return dict(Ls=(16, 32, 48), Ls_D=(16, 32), Ls_P=(16, 48), Ls_F=(16, 48),
                 short_bs=lambda L, n: sorted({1, 7, L, n + 1}), form_dev=1, all_lengths=False)
 
@@ -519,7 +593,7 @@ def units(tier):
             n = len(body)
             np_ = nparts(parts) if parts is not None else 1
             tiny = descr.startswith("tiny")
-            if (tiny or descr.startswith("state:")) and L != P["Ls"][0]:
+            if (tiny or descr.startswith(("state:", "nodelim:part-without"))) and L != P["Ls"][0]:
                 continue                      # these bodies do not depend on L
             if descr.startswith("state:"):
                 for mfms in STATE_M:
@@ -559,6 +633,29 @@ def form_bodies(L):
                         (exp_form(parts), nparts(parts), biggest_field(parts), STATE_M)))
     for descr, body, items, big in url_bodies(L):
         out.append((descr, "application/x-www-form-urlencoded", body, ((tuple(items), ()), None, big)))
+    if L == 16:
+        mb = {d: (p_, b_) for d, p_, b_ in multipart_bodies(L, "quick")}
+        p3, b3 = mb["tiny*3"]
+        t3 = (exp_form(p3), nparts(p3), biggest_field(p3))
+        # spellings of the content type parameters
+        out.append(("ctype:spaced-extra-param", "multipart/form-data;boundary=bnd ; x=1", b3, t3))
+        out.append(("ctype:quoted-Boundary", 'multipart/form-data; Boundary="bnd"', b3, t3))
+        out.append(("ctype:url-charset", "application/x-www-form-urlencoded; charset=utf-8", b"a=1&b=2345&c=9",
+                    (((("a", "1"), ("b", "2345"), ("c", "9")), ()), None, 4)))
+        p0, b0 = mb["tiny*0:first-nl"]
+        out.append(("tiny*0", "multipart/form-data; boundary=bnd", b0, (exp_form(p0), 0, 0)))
+        pc, bc = mb["tiny:charset"]
+        out.append(("tiny:charset", "multipart/form-data; boundary=bnd", bc, (exp_form(pc), 1, 2)))
+        # content that is not form data: nothing is parsed and (apart from get_data) nothing is read
+        out.append(("notform:text/plain", "text/plain", b3, ("none-parsed", None, 0)))
+        out.append(("notform:empty-ctype", "", b3, ("none-parsed", None, 0)))
+        out.append(("notform:json", "application/json", b'{"a": "' + b"x" * 40 + b'"}', ("none-parsed", None, 0)))
+        # multipart without a usable boundary / with a part that is not form data: must not produce data
+        out.append(("ill:missing-boundary", "multipart/form-data", b3, ("ill-formed", None, 0)))
+        out.append(("ill:empty-boundary", "multipart/form-data; boundary=", b3, ("ill-formed", None, 0)))
+        out.append(("ill:wrong-boundary", "multipart/form-data; boundary=other", b3, ("ill-formed", None, 0)))
+        out.append(("ill:no-disposition", "multipart/form-data; boundary=bnd", mb["nodelim:part-without-disposition"][1],
+                    ("ill-formed", None, 0)))
     return out
 
 
@@ -645,6 +742,8 @@ def run_unit(unit, R, tier):
             lies = [("lie", k) for k in dict.fromkeys([0, 1, max(mcl - 1, 0), mcl])]
         mparts_vals = [None] if np_ is None else list(dict.fromkeys([None, max(np_ - 1, 0), np_, np_ + 1]))
         R.use("F:" + ("url" if np_ is None else "multipart"), "F:mcl-" + mcl_kind)
+        if descr.startswith(("notform", "ill:")):
+            R.use("F:" + descr.split(":")[0])
         for mfms in mfms_vals:
             for mparts in mparts_vals:
                 for with_cl in cl_modes + lies:
@@ -654,7 +753,12 @@ def run_unit(unit, R, tier):
                         if with_cl not in (True, False):
                             R.use("F:declared-length-lies")
                         for ri in (False, True):
-                            for via in ("request", "parse_form_data"):
+                            for via in ("request", "parse_form_data", "request-cached", "request-instance",
+                                        "parser-not-silent", "request-get-data-parse", "parser-parse-direct"):
+                                if via == "parser-parse-direct" and not (mcl is None and with_cl is True
+                                                                         and not terminated):
+                                    continue      # parse() itself knows no max_content_length / stream wrapping
+                                R.use("F:via-" + via)
                                 cfg = (ctype, body, mfms, mparts, mcl, with_cl, terminated, ri, via)
                                 R.ev()
                                 if mfms is not None or mparts is not None or mcl is not None:
@@ -684,7 +788,8 @@ def run_unit(unit, R, tier):
 def finalize(R, tier):
     need = {"family:field", "family:file", "family:tiny", "family:preamble", "family:bigheader", "family:nodelim",
             "family:two-fields", "D:ok", "D:RETL", "D:EXC", "D:receive-RETL", "P:ok", "P:RETL", "P:EXC",
-            "F:ok", "F:RETL", "F:url", "F:multipart", "F:declared-length-lies", "family:state", "F:mcl-none", "F:mcl-small", "F:mcl-exact", "F:mcl-large"}
+            "F:ok", "F:RETL", "F:url", "F:multipart", "F:declared-length-lies", "family:state", "F:via-request-cached", "F:via-request-instance",
+            "F:via-parser-not-silent", "F:via-request-get-data-parse", "F:via-parser-parse-direct", "F:notform", "F:ill", "F:mcl-none", "F:mcl-small", "F:mcl-exact", "F:mcl-large"}
     missing = need - R.used
     if missing:
         raise core.Broken(f"vacuity: never exercised {sorted(missing)}")
@@ -708,7 +813,7 @@ def replay(rec):
         term = classify_terminal(o)
         parts = None
         if rec["wellformed"]:
-            for L in (16, 32, 48, 64):
+            for L in (16, 32, 48, 64, 96):
                 for d, p, b in multipart_bodies(L, "thorough"):
                     if b == rec["body"]:
                         parts = p
@@ -730,7 +835,7 @@ def replay(rec):
         dev = {int(a): b for a, b in rec["dev"].items()}
         got, _src = parse_with(rec["body"], rec["buffer_size"], rec["mfms"], rec["max_parts"], dev)
         parts = "?"
-        for L in (16, 32, 48, 64):
+        for L in (16, 32, 48, 64, 96):
             for d, p, b in multipart_bodies(L, "thorough"):
                 if b == rec["body"]:
                     parts = p
